@@ -13,8 +13,13 @@ run() { (cd "$wt" && PYTHONPATH="$wt/src" timeout 1800 /venv/bin/python "$@"); }
 run "$src/demo.py" > "/var/tmp/confirm-$id.clean.log" 2>&1; rc_clean=$?
 if ! git -C "$wt" apply "$src/patch.diff"; then echo "$id: patch does not apply to /repo HEAD"; git -C /repo worktree remove --force "$wt"; exit 1; fi
 run "$src/demo.py" > "/var/tmp/confirm-$id.mut.log" 2>&1; rc_mut=$?
-(cd "$wt" && PYTHONPATH="$wt/src" timeout 7200 /venv/bin/python -m pytest -q -p no:cacheprovider -n 6 $tests > "/var/tmp/confirm-$id.tests.log" 2>&1); rc_tests=$?
-summary=$(tail -1 "/var/tmp/confirm-$id.tests.log")
+if [ "$tests" = "FULL" ]; then
+  "$(pwd)/tools/baseline.py" "$wt" -n 8 > "/var/tmp/confirm-$id.tests.log" 2>&1; rc_tests=$?
+  summary="full pinned suite vs BASELINE.json: $(grep '^stable_pass' /var/tmp/confirm-$id.tests.log)"
+else
+  (cd "$wt" && PYTHONPATH="$wt/src" timeout 7200 /venv/bin/python -m pytest -q -p no:cacheprovider -n 6 $tests > "/var/tmp/confirm-$id.tests.log" 2>&1); rc_tests=$?
+  summary=$(tail -1 "/var/tmp/confirm-$id.tests.log")
+fi
 git -C /repo worktree remove --force "$wt"
 echo "$id: demo clean rc=$rc_clean, demo mutated rc=$rc_mut, tests rc=$rc_tests ($summary)"
 if [ $rc_clean -eq 0 ] && [ $rc_mut -ne 0 ] && [ $rc_tests -eq 0 ]; then
